@@ -1,5 +1,5 @@
 (* C05 - Rejected CTAP2 requests report exactly the status code their fault calls for. *)
-From Ctap Require Import Base Schema Wire Utf8 Typed WellTyped Procs Inst Tables ProcTables Finite CborItem WireP SkipP TypedP EntriesP FramingP C11P SerP TotalP RoundTripP PrefixP ObRequestSide ObOpTables FnShapes Shapes ObShapeRequest.
+From Ctap Require Import Base Schema Wire Utf8 Typed WellTyped Procs Inst Tables ProcTables Finite CborItem WireP SkipP TypedP EntriesP FramingP C11P SerP TotalP RoundTripP PrefixP FaultP ObRequestSide ObOpTables FnShapes Shapes ObShapeRequest.
 Local Open Scope string_scope.
 Local Open Scope Z_scope.
 
@@ -148,6 +148,26 @@ Proof.
   rewrite spec_status_of_cerr. reflexivity.
 Qed.
 
+(* READER-LEVEL FAULT CLASSES (all mapped to InvalidCbor by c05_mapping).  For every major type, value and
+   continuation: a head wider than the value needs is NonMinimal; the 8-byte width where a length or 32-bit
+   member is read, indefinite length (additional information 31) and the reserved 28..30 are range errors;
+   a value of another major type is BadMajor *)
+Theorem c05_nonminimal_integer : forall maj w v r, 0 <= maj < 8 -> wider_than_needed w v ->
+  raw_u64 maj (head_w maj w v ++ r)%list = Err NonMinimal.
+Proof. exact nonminimal_u64. Qed.
+Theorem c05_nonminimal_length : forall maj w v r, 0 <= maj < 8 -> (w <= 3)%nat -> wider_than_needed w v ->
+  raw_u32 maj (head_w maj w v ++ r)%list = Err NonMinimal.
+Proof. exact nonminimal_u32. Qed.
+Theorem c05_eight_byte_length : forall maj v r, 0 <= maj < 8 -> raw_u32 maj (head_w maj 4 v ++ r)%list = Err BadU32.
+Proof. exact eight_byte_length_rejected. Qed.
+Theorem c05_indefinite_length : forall maj a r, 0 <= maj < 8 -> 28 <= a <= 31 ->
+  raw_u32 maj ((maj * 32 + a) :: r) = Err BadU32 /\ raw_u64 maj ((maj * 32 + a) :: r) = Err BadU64 /\
+  raw_u8 maj ((maj * 32 + a) :: r) = Err BadU8.
+Proof. exact indefinite_rejected. Qed.
+Theorem c05_wrong_major : forall maj b r, b / 32 <> maj ->
+  raw_u8 maj (b :: r) = Err BadMajor /\ raw_u32 maj (b :: r) = Err BadMajor /\ raw_u64 maj (b :: r) = Err BadMajor.
+Proof. exact wrong_major_rejected. Qed.
+
 Theorem c05_empty_message : forall e, request_deserialize spec_tables e [] = RErr 0x12.
 Proof. intros e. cbn [request_deserialize]. rewrite spec_status_of_cerr. reflexivity. Qed.
 
@@ -193,3 +213,8 @@ Eval vm_compute in "ASSUMPTIONS c05_spec_declarations_wellformed". Print Assumpt
 Eval vm_compute in "ASSUMPTIONS c05_spec_request_types_decodable". Print Assumptions c05_spec_request_types_decodable.
 Eval vm_compute in "ASSUMPTIONS c05_truncation_is_invalid_cbor". Print Assumptions c05_truncation_is_invalid_cbor.
 Eval vm_compute in "ASSUMPTIONS c05_modelled_functions_unchanged_request". Print Assumptions c05_modelled_functions_unchanged_request.
+Eval vm_compute in "ASSUMPTIONS c05_nonminimal_integer". Print Assumptions c05_nonminimal_integer.
+Eval vm_compute in "ASSUMPTIONS c05_nonminimal_length". Print Assumptions c05_nonminimal_length.
+Eval vm_compute in "ASSUMPTIONS c05_eight_byte_length". Print Assumptions c05_eight_byte_length.
+Eval vm_compute in "ASSUMPTIONS c05_indefinite_length". Print Assumptions c05_indefinite_length.
+Eval vm_compute in "ASSUMPTIONS c05_wrong_major". Print Assumptions c05_wrong_major.
